@@ -96,7 +96,7 @@ template <class S, class D, Order O, size_t N> struct H {
 	static int prop_throw(const unsigned char* in, unsigned char* out) {
 		SU abs[N], mem[N]; size_t n = load(in, abs, mem);
 		std::basic_string<typename D::cchar> s; s.reserve(MAXOUT + 8);
-		verif_symbolic_phase();
+		verif_nogrow(&s); verif_symbolic_phase();
 		size_t it = 0, cnt = 0;
 		UtfEncodingErrorCode ec = decode<S, D, O>(mem, n, s, UtfEncodingErrorPolicy::ThrowError, nullptr, &it, &cnt);
 		uint32_t cps[N]; size_t ncp = 0; size_t wf = S::wf_prefix(abs, n, cps, N, &ncp);
@@ -110,7 +110,7 @@ template <class S, class D, Order O, size_t N> struct H {
 		SU abs[N], mem[N]; size_t n = load(in, abs, mem);
 		std::basic_string<typename D::cchar> a, b; a.reserve(MAXOUT + 8); b.reserve(MAXOUT + 8);
 		static const typename D::cchar empty[1] = { 0 };
-		verif_symbolic_phase();
+		verif_nogrow(&a); verif_nogrow(&b); verif_symbolic_phase();
 		size_t itA = 0, cntA = 0, itB = 0, cntB = 0;
 		UtfEncodingErrorCode ecA = decode<S, D, O>(mem, n, a, UtfEncodingErrorPolicy::Skip, Detail::GetDefaultErrorMark<typename D::cchar>(), &itA, &cntA);
 		UtfEncodingErrorCode ecB = decode<S, D, O>(mem, n, b, UtfEncodingErrorPolicy::Skip, empty, &itB, &cntB);
